@@ -99,6 +99,12 @@ CHECKS = {
     design="5/C16",
     note="Trusted: Lean kernel; that the emitted stamp components are those functions of the loop coordinates is observed by execution on sampled programs/inputs; minifiber's canvas recorder. Coordinate-style stamps on flattened ranks are excluded (C06 known finding).",
     technique="Lean 4 proofs of stamp injectivity / slip uniqueness (partial) + execution of the real spacetime programs with an activity recorder"),
+ "C08": dict(
+    category="proof",
+    text="PARTIAL. Lean theorems (Props/C08): split_comm (partitioning two different ranks of one tensor commutes, with the deeper depth shifted: the two data-dependent chains the implementation emits under different hash seeds produce the same tensor, for every tensor, steps and depths), swap_indep (for any statement semantics respecting its read/write footprint, adjacent statements with disjoint footprints can be exchanged without changing the final store); closedness of each variant is C06.DA_sound evaluated on every distinct text. Observed on the real compiler: the same specifications (partitioned G2/G3 families, occupancy+shape+flatten, double flatten, accelerator specifications and G7 in metrics mode) are compiled in processes that differ only in PYTHONHASHSEED (6 quick / 16 thorough, incl. 0); every distinct text is closed (Lean DA), all texts of a specification compute identical tensors on identical inputs and the Einsum's result, compiling twice in one process gives identical text, acceptance does not depend on the seed.",
+    design="5/C08",
+    note="Trusted: Lean kernel; hash seeds are sampled; which statement orders the implementation can produce is not modelled (the theorems quantify over all orders of independent statements / commuting splits); tensor equality of variants rests on execution over sampled inputs.",
+    technique="Lean 4 commutation proofs (partial) + multi-hash-seed compilation differential with Lean definite-assignment validation of every variant and execution on identical inputs"),
 }
 
 NOT_YET = {}
